@@ -129,6 +129,9 @@ fn args_string_backend(k: &KeyPlan, a: &Assign) -> String {
     for (v, val) in &a.vars {
         let _ = write!(s, ", {} = {}", v, rust_str(val));
     }
+    for (v, val) in &a.fvars {
+        let _ = write!(s, ", {} = {}", v, val.rust());
+    }
     if let Some((v, _, _)) = &a.loop_var {
         let _ = write!(s, ", {} = c", v);
     }
@@ -145,6 +148,9 @@ fn args_view_backend(k: &KeyPlan, a: &Assign) -> String {
     let mut s = String::new();
     for (v, val) in &a.vars {
         let _ = write!(s, ", {} = {}", v, rust_str(val));
+    }
+    for (v, val) in &a.fvars {
+        let _ = write!(s, ", {} = move || {}", v, val.rust());
     }
     if let Some((v, _, _)) = &a.loop_var {
         let _ = write!(s, ", {} = move || c", v);
@@ -204,19 +210,49 @@ pub fn key_fn(k: &KeyPlan, nlocales: usize, opts: &PlanOpts) -> String {
     s
 }
 
+pub const FMT_HELPERS: &str = r#"
+use leptos_i18n::reexports::icu::calendar::{AnyCalendar, Date, DateTime, Time};
+fn mkdate(y: i32, m: u8, d: u8) -> Date<AnyCalendar> {
+    Date::try_new_iso_date(y, m, d).unwrap().to_any()
+}
+fn mktime(h: u8, m: u8, s: u8) -> Time {
+    Time::try_new(h, m, s, 0).unwrap()
+}
+fn mkdt(y: i32, mo: u8, d: u8, h: u8, mi: u8, s: u8) -> DateTime<AnyCalendar> {
+    DateTime::new(mkdate(y, mo, d), mktime(h, mi, s))
+}
+"#;
+
 pub fn main_rs(plan: &Plan, nlocales: usize, opts: &PlanOpts) -> String {
+    main_rs_with_refs(plan, nlocales, opts, &[])
+}
+
+/// `refs` = reference descriptors the binary evaluates with `vref` (formatter stages)
+pub fn main_rs_with_refs(plan: &Plan, nlocales: usize, opts: &PlanOpts, refs: &[String]) -> String {
     let mut s = String::from(PRELUDE);
     s.push_str("fn fd(s: &str) -> &'static leptos_i18n::reexports::fixed_decimal::FixedDecimal {\n    Box::leak(Box::new(s.parse().unwrap()))\n}\n\n");
+    if opts.formatters {
+        s.push_str(FMT_HELPERS);
+        s.push_str("fn refs() {\n    let ds: &[&str] = &[\n");
+        for d in refs {
+            let _ = writeln!(s, "        {},", rust_str(d));
+        }
+        s.push_str("    ];\n    for d in ds {\n        match vref::reference(d) {\n            Ok(r) => println!(\"R|{}\\tOK:{}\", d, esc(&r)),\n            Err(e) => println!(\"R|{}\\tERR:{}\", d, esc(&e)),\n        }\n    }\n}\n\n");
+    }
+    let skip = |k: &KeyPlan| k.has_formatter && !opts.formatters;
     for k in &plan.keys {
-        if k.has_formatter {
+        if skip(k) {
             continue;
         }
         s.push_str(&key_fn(k, nlocales, opts));
         s.push('\n');
     }
     s.push_str("fn main() {\n");
+    if opts.formatters {
+        s.push_str("    refs();\n");
+    }
     for k in &plan.keys {
-        if k.has_formatter {
+        if skip(k) {
             continue;
         }
         let _ = writeln!(s, "    key_{}();", k.idx);
